@@ -1,6 +1,7 @@
 pub mod core;
 pub mod cw1w;
 pub mod cw20w;
+pub mod cw4w;
 pub mod direct;
 pub mod monitor;
 pub mod refmodel;
